@@ -429,12 +429,16 @@ def _build_cp_atom_payload(sequence, restrict, payload_form=False, interner=None
     # and that everything is specific.
 
     lget = locked.get
+    # flags a specific chunk kept so far changes; from there on the global chunk
+    # no longer tells what state a flag is in.
+    changed = set()
 
     for key, neg, pos in reversed(l):
         # only grab the deltas; if a + becomes a specific -
-        neg = tuple(x for x in neg if lget(x, True))
-        pos = tuple(x for x in pos if not lget(x, False))
+        neg = tuple(x for x in neg if x in changed or lget(x, True))
+        pos = tuple(x for x in pos if x in changed or not lget(x, False))
         if neg or pos:
+            changed.update(neg, pos)
             new_l.append(f(key, neg, pos))
 
     return tuple(new_l)
